@@ -661,6 +661,8 @@ func runC07(r *Run) {
 		}
 		r.Floor("R8", "fee/refund functions examined for machine-word arithmetic", nF, 4)
 	}
+	r.Rule("R9", "see C16 R3 (imported): the gas a precompile call is charged is exactly what its Cosmos-side work consumed — every Run charges contract.UseGas(GasConsumed − initialGas) and fails when that is refused, and the SDK gas meter RunSetup installs is limited by the call's gas plus what it is pre-charged with (the gas the transaction's meter already shows): a later message of a multi-message Ethereum transaction must not pay for the earlier ones inside its precompile calls")
+	r.Import("R9/C16.", []string{"R3"}, runC16)
 	// ---------- R5 ----------
 	r.Rule("R5", "FLOW.floor-on-paid-fee: on the Cosmos routes the fee that DeductFeeDecorator takes is the tx-fee checker's effective fee; the fee MinGasPriceDecorator compares with gasLimit × MinGasPrice must be that same quantity (derive from a TxFeeChecker call), not only the declared fee — otherwise a transaction whose effective price is below its declared price is accepted while paying less than the floor")
 	isCheckerCall := func(v ssa.Value) bool {
